@@ -22,6 +22,7 @@ MatchFacts.lean:
                   into, deletes from, or calls a mutating method / setattr on an object
   matchFresh    : (function, name) for the local names ALL of whose bindings in that function are
                   assignments of a fresh display / comprehension
+  matchTargetTests: (function, test) for every `if` test on the class of the target (isinstance / exact type)
   matchUserAttrs: (function, object.attribute) for every attribute read directly off a user object
                   (spec / target / key ...) in _glom_match / _handle_dict
   identityMarkers: (name, way of copying, preserved?) for the module-level objects matching.py compares by
@@ -390,6 +391,19 @@ def extract(ctx):
                 user_attrs.append((fname, n.value.id + '.' + n.attr))
     user_attrs = sorted(set(user_attrs))
 
+    # ---- how the class of the TARGET is tested: isinstance (subclass instances of dict / list / tuple / set
+    # are matched like the builtin) or exact type (Regex).  (function, test) for every `if` test that looks
+    # at the class of `target`, in source order
+    target_tests = []
+    for fname, fn in (('_glom_match', gm), ('_handle_dict', hd),
+                      ('Regex.glomit', find_def(mt, 'glomit', cls='Regex'))):
+        if fn is None:
+            continue
+        for n in ordered([n for n in ast.walk(fn) if isinstance(n, ast.If)]):
+            src = ast.unparse(n.test)
+            if 'isinstance(target' in src or 'type(target)' in src:
+                target_tests.append((fname, src))
+
     # ---- instance state written outside __init__ (C10: an object evaluated earlier, then used again)
     SPEC_CLASSES = ('_Bool', 'And', 'Or', 'Not', '_MExpr', '_MSubspec', '_MType', 'Switch', 'Check',
                     'Match', 'Regex', 'Optional', 'Required')
@@ -563,6 +577,7 @@ def extract(ctx):
         ('identityMarkers', 'List (String × String × Bool)', identity),
         ('matchModuleWrites', 'List (String × String × String)', module_writes),
         ('matchUserAttrs', 'List (String × String)', user_attrs),
+        ('matchTargetTests', 'List (String × String)', target_tests),
         ('abcClassTable', 'List (String × List String)', abc_rows),
         ('abcNames', 'List String', [a.__name__ for a in abcs]),
         ('combSelfWrites', 'List (String × String × String)', self_writes),
